@@ -142,6 +142,20 @@ Theorem C03_round_tie_even : forall z, round_half_even (ZtoQc z + half)%Qc = if 
 Proof. exact round_half_even_tie. Qed.
 Print Assumptions C03_round_tie_even.
 
+(* dts = m*dt, m >= 1 (the property's quantifier): no allocated row stays unwritten, the outcome is the iterates or
+   IndexError -- never `Short` *)
+Theorem C03_rows_never_short : forall T dt dts, sampling_multiple dt dts = true -> (0 <= T)%Qc -> (0 < dt)%Qc ->
+  rnd (T / dts) <= cdiv (rnd (T / dt)) (rnd (dts / dt)).
+Proof. exact rows_never_short. Qed.
+Print Assumptions C03_rows_never_short.
+
+Theorem C03_rows_or_index_error : forall (C : Type) (f : C -> nat -> row -> row * C) s T dt dts y0 c0 t0,
+  sampling_multiple dt dts = true -> (0 <= T)%Qc -> (0 < dt)%Qc ->
+  (rows_fit T dt dts = true /\ solve f s T dt dts y0 c0 t0 = Rows (spec_rows f s T dt dts y0 c0 t0)) \/
+  (rows_fit T dt dts = false /\ solve f s T dt dts y0 c0 t0 = ErrIndex).
+Proof. exact @solve_rows_or_index_error. Qed.
+Print Assumptions C03_rows_or_index_error.
+
 (* -------- refutations of the full statement (each replayed on the real code: corpus/C03) -------- *)
 Theorem C03_refuted_index_error :
   run_model (lin_f wit_rhs) Euler (mkq 5 8) (mkq 1 8) (Some (mkq 1 4)) (mkq 0 1) [0] [mkq 1 1] 0 = ErrIndex /\
@@ -150,8 +164,9 @@ Proof. exact refuted_index_error. Qed.
 Print Assumptions C03_refuted_index_error.
 
 Theorem C03_refuted_single_row :
-  run_model (lin_f wit_rhs2) Euler (mkq 1 8) (mkq 1 8) None (mkq 0 1) [0; 1] [mkq 1 1; mkq 2 1] 0 = ErrShape /\
-  frame_ok (mkq 1 8) (mkq 1 8) 2 = false.
+  outcome_eqb (run_model (lin_f wit_rhs2) Euler (mkq 1 8) (mkq 1 8) None (mkq 0 1) [0; 1] [mkq 1 1; mkq 2 1] 0)
+              (if fixed_D35 then Rows [[mkq 0 1; mkq 1 1; mkq 2 1]] else ErrShape) = true /\
+  frame_ok (mkq 1 8) (mkq 1 8) 2 = fixed_D35.
 Proof. exact refuted_single_row. Qed.
 Print Assumptions C03_refuted_single_row.
 
